@@ -10,7 +10,11 @@ RULE = ("documents: generated Clausewitz text (nested objects/arrays, duplicate 
         "alphabet; every input the real parser accepts is used. For each tape: the well-formedness checker of the model, "
         "then EVERY container/header token and the top level, with both encodings: fields_len, size hints, fields, "
         "remainder, field groups, read_object/read_array/read_scalar/read_str, values, len, tokens_len. "
-        "non-trivial = the node has at least one field or value")
+        "non-trivial = the node has at least one field or value. "
+        "Wave 4 (props/C17_iter.py): wide objects (12..32 fields over 2..6 keys) and deep documents (nesting 5..8); streams iter / leaf: "
+        "FieldsIter, FieldGroupsIter and ValuesIter observed before the first and after EVERY next() (size hints, remainder()), fusedness, "
+        "and token / tokens_len / read_scalar / read_str / read_string / read_object / read_array / Reader enum / ValueReader::decode "
+        "on every value a node yields, whatever its token kind; oracles from the tape string alone")
 TRUSTED = [  # note: TapeWf.tape_wf of every parsed tape is now a theorem (Props/C17_parser.v)
 "HashMap<&[u8],Vec<_>> of FieldGroupsIter is modelled as an association list keyed by raw bytes (std HashMap trusted)",
            "Encoding::decode is a parameter of the model; the executable instances (Json.decode_w1252 / decode_utf8, incl. "
@@ -426,6 +430,10 @@ def search(ctx):
 
 CLAIM = {
     "text": "Coq theorems over an index-faithful Gallina model of text/dom.rs (every tokens[i], unwrap, usize subtraction and debug_assert is an explicit Panic site; loops on fuel): for every token list satisfying TapeWf.tape_wf (end pointers, Dyck nesting, header-then-container, object grammar `(key [op] value)* [M item*]`) and every object/array node, fields_len = |fields| = size hint, len = |values| = size hint, field_groups is the partition of fields by raw key in first-appearance order, remainder is exactly the tail after the MixedContainer marker, and no model function panics or runs out of fuel. tape_wf's boolean checker is run on every tape the real parser produces; the model is tied to the code by differential execution of the whole reader API on every container/header node of every accepted document with both encodings, and the same facts are checked on the implementation's outputs against a grammar-level Python reference",
+    "wave4": "Props/C17_iter.v: the same agreements at every iteration point: FieldsIter::size_hint after k calls = fields left, ValuesIter::size_hint exact on both sides after k calls, FieldGroupsIter as the stateful loop over the inner cursor and the shrinking key map yields groups_spec with size hint = groups left after every call and ends with the cursor where fields() stops; remainder() defined at every cursor; read_array of a mixed object = remainder of its own fields(); a header read as an array = [header, container]; value reader answers per token kind",
     "note": "Trusted: Coq kernel, extraction (ExtrOcamlBasic only), harness; HashMap modelled as association list; Encoding::decode is a parameter of the model (executable stand-ins exercised only). That the parser only produces tape_wf tapes is proved by the tape family (C06); here it is an oracle.",
     "technique": "machine-checked proof in Coq over an executable model + model/implementation correspondence by extraction",
 }
+
+# a_dom (wave 4): the additional claim is part of the manifest text
+CLAIM["text"] = CLAIM["text"] + ". Wave 4: " + CLAIM.pop("wave4")
